@@ -478,3 +478,107 @@ func ruleValidatorsRejectStrings(c *core.Ctx) {
 	}
 	c.Floor("HTTP/filter-validation", "typed filter validators examined for string acceptance", n, 1)
 }
+
+// ruleLoopCarriedError (ERRP): in the replication packages, an error variable declared outside a
+// loop, assigned in the loop body, not leaving the loop when it is non-nil, and read after the
+// loop holds the outcome of the LAST iteration only: an earlier failure is overwritten by a later
+// success. In Batcher.Accept that is a page whose first batch failed reported as acknowledged —
+// the pipeline advances and persists last_log_id past logs the exporter never stored.
+func ruleLoopCarriedError(c *core.Ctx) {
+	n := 0
+	for _, rel := range []string{pkgReplic, "internal/replication/drivers"} {
+		pk := c.Prog().Pkg(rel)
+		if pk == nil {
+			continue
+		}
+		info := pk.TypesInfo
+		for _, d := range index(c).Decls {
+			if d.Pkg != pk || d.Decl.Body == nil || strings.HasSuffix(c.Prog().Rel(d.Decl.Pos()), "_test.go") {
+				continue
+			}
+			ast.Inspect(d.Decl.Body, func(x ast.Node) bool {
+				var body *ast.BlockStmt
+				switch l := x.(type) {
+				case *ast.RangeStmt:
+					body = l.Body
+				case *ast.ForStmt:
+					if l.Cond == nil && l.Init == nil && l.Post == nil {
+						return true // `for { … }` retry loops: the last outcome is the outcome
+					}
+					body = l.Body
+				}
+				if body == nil {
+					return true
+				}
+				n++
+				loop := x
+				ast.Inspect(body, func(y ast.Node) bool {
+					if _, isLit := y.(*ast.FuncLit); isLit {
+						return false
+					}
+					as, ok := y.(*ast.AssignStmt)
+					if !ok || as.Tok != token.ASSIGN {
+						return true
+					}
+					for _, l := range as.Lhs {
+						id, ok := l.(*ast.Ident)
+						if !ok {
+							continue
+						}
+						obj, _ := info.ObjectOf(id).(*types.Var)
+						if obj == nil || obj.Type().String() != "error" || !(d.Decl.Body.Pos() <= obj.Pos() && obj.Pos() < loop.Pos()) {
+							continue
+						}
+						// the loop is left when the variable is non-nil
+						leaves := false
+						ast.Inspect(body, func(z ast.Node) bool {
+							is, ok := z.(*ast.IfStmt)
+							if !ok || len(is.Body.List) == 0 {
+								return true
+							}
+							mentions := false
+							ast.Inspect(is.Cond, func(w ast.Node) bool {
+								if wi, ok := w.(*ast.Ident); ok && info.ObjectOf(wi) == obj {
+									mentions = true
+								}
+								return true
+							})
+							if !mentions {
+								return true
+							}
+							switch last := is.Body.List[len(is.Body.List)-1].(type) {
+							case *ast.ReturnStmt:
+								leaves = true
+							case *ast.BranchStmt:
+								if last.Tok == token.BREAK || last.Tok == token.GOTO {
+									leaves = true
+								}
+							}
+							return true
+						})
+						if leaves {
+							continue
+						}
+						// read after the loop
+						readAfter := false
+						ast.Inspect(d.Decl.Body, func(z ast.Node) bool {
+							if zi, ok := z.(*ast.Ident); ok && zi.Pos() > loop.End() && info.ObjectOf(zi) == obj {
+								readAfter = true
+							}
+							return true
+						})
+						if readAfter {
+							c.Fail("ERRP/loop-carried-error", fmt.Sprintf("%s:%s", declKey(d), id.Name), pos(c, as), fmt.Sprintf("%s is assigned on every iteration of the loop, the loop goes on after a failure, and %s is what is looked at after the loop: a failure of an earlier iteration is overwritten by a later success (a page whose first batch failed is reported as acknowledged)", id.Name, id.Name))
+						}
+					}
+					return true
+				})
+				return true
+			})
+		}
+	}
+	c.Floor("ERRP/loop-carried-error", "loops scanned in the replication packages", n, 3)
+	if n > 0 {
+		c.Pass("ERRP/loop-carried-error", "scanned", "", fmt.Sprintf("%d loops: no error variable carries only the last iteration's outcome out of a loop", n))
+	}
+}
